@@ -40,7 +40,7 @@ THEOREMS = ["fasta_read_write", "fasta_rewrap_invariant", "fasta_file_lines", "f
             "small_regurgitate_rows", "small_regurgitate_identity", "small_regurgitate_seq_line", "small_mask_shrinks",
             "small_wanted_sublist", "small_alistat_is_projection", "small_reformat_afa_eq_reference", "small_reformat_pfam_rows",
             # round 6: esl-alimerge (in-memory mode)
-            "alimerge_restriction", "alimerge_length", "alimerge_rows_stay_aligned"]
+            "alimerge_restriction", "alimerge_length", "alimerge_rows_stay_aligned", "alimerge_insert_regions_partition", "alimerge_adds_only_gaps", "alimerge_maxgap_dominates"]
 
 SQFORMATS = ["fasta", "embl", "genbank", "uniprot", "ddbj", "daemon", "hmmpgmd", "ncbi", "fmindex"]
 MSAFORMATS = ["stockholm", "pfam", "a2m", "afa", "psiblast", "clustal", "clustallike", "selex", "phylip", "phylips"]
@@ -2703,6 +2703,17 @@ def corpus_cases(ctx):
     # 2147483647 failed', SIGABRT under a memory limit); repaired in b700765: the sequence is copied
     out.append({"name": "corpus-regress-b700765-shuffle-k-huge", "expect_ok": True,
                 "ops": [op_file("in0", ">s1\nACGTACGTAC\n"), op_run("esl-shuffle", ["-k", "2147483647", "-S", "in0"])]})
+    # round 6: the --small tools on an INTERLEAVED Stockholm file must stop with the 'two seqs named' / 'same name' diagnostic (esl-reformat printed a
+    # non-terminated token with %s: heap over-read; esl-alimanip ended silently with exit 0 and a truncated alignment; patch C13-small-interleaved-input)
+    il_ = "# STOCKHOLM 1.0\n\ns1 ACGU\ns2 AC-U\n\ns1 GGCC\ns2 GG-C\n//\n"
+    for k_, (t_, a_, kk_) in enumerate([("esl-reformat", ["--small", "--informat", "pfam", "pfam", "il.sto"], None),
+                                        ("esl-reformat", ["--small", "--informat", "pfam", "afa", "il.sto"], None),
+                                        ("esl-alimanip", ["--small", "--seq-k", "list", "--rna", "--informat", "pfam", "il.sto"], "C13:esl-alimanip:small-parse-error-silent"),
+                                        ("esl-alimask", ["--small", "-t", "--rna", "--informat", "pfam", "il.sto", "1-2"], None),
+                                        ("esl-alistat", ["--small", "--rna", "--informat", "pfam", "il.sto"], None)]):
+        c_ = {"name": "corpus-small-interleaved-%d" % k_, "expect_err": True, "ops": [op_file("il.sto", il_), op_file("list", "s1\n"), op_run(t_, a_)]}
+        if kk_: c_["known_key"] = kk_
+        out.append(c_)
     # round 6: esl-reformat --small pfam with a WUSS option: inverted #=GR / SS tests ('bad #=GR line' on any #=GF line); repaired in 2415140
     out.append({"name": "corpus-regress-2415140-reformat-small-dewuss", "expect_ok": True,
                 "ops": [op_file("w.sto", "# STOCKHOLM 1.0\n#=GF ID aln1\n\ns1         ACGU-ACGU.NN\n#=GR s1 SS <<<<....>>>>\nseq_two    AC-UUACGU.NN\n#=GC SS_cons <<<<....>>>>\n//\n"),
